@@ -550,3 +550,15 @@ Proof.
   destruct (C07_update_merge_clean _ _ (Some C07_clean_ex.dirty) W W2 T) as [[A _] [B _]].
   split; [exact W|]. split; [exact W2|]. split; [exact T|]. split; [exact A|]. split; [exact B|]. vm_compute. reflexivity.
 Qed.
+
+(* the exact characterisation, used in both directions on the example state *)
+Example C07_clean_exact_nonvacuous :
+  sd_clean C07_clean_ex.dirty <> C07_clean_ex.dirty /\ sd_clean C07_clean_ex.clean = C07_clean_ex.clean.
+Proof.
+  split.
+  - intro H.
+    assert (Hc : clean_state C07_clean_ex.dirty = true)
+      by (apply (proj2 (C07_clean_exact C07_clean_ex.dirty eq_refl eq_refl)); exact H).
+    vm_compute in Hc. discriminate Hc.
+  - apply (proj1 (C07_clean_exact C07_clean_ex.clean eq_refl eq_refl)). vm_compute. reflexivity.
+Qed.
